@@ -21,6 +21,7 @@ TABLES = [
     {"1P": "[11]", "3P": "[13]"},  # 2P is unknown to the resolver
     {"1P": "[11] U [12]", "2P": "[11] U [12]", "3P": "[13]"},  # two packages with the same expression
     {"1P": "([11] O [12]) U ([13] o [14])", "2P": "(([12]))", "3P": "([13] x [14])[901]"},  # bracket shapes, lower case operators
+    {},  # no package is known at all (the shipped content evaluation result then carries packages = None or {})
 ]
 FLAGS = [(True, True), (True, False), (False, True)]
 OPS_NOT_THEN = ("or_composition", "xor_composition", "and_composition")
